@@ -27,12 +27,23 @@ from . import common
 G = 1_000_000
 
 
-def key_sims():
+NEAR = 1e-7       # two noise models this close are still two noise models
+
+
+def key_sims(variant=0):
+    """The two simulations A and B of Analysis.tla.  Variant 0: different codes and
+    rates.  Variant 1: the same code, decoder and rate under two noise models that
+    differ in the seventh decimal only (infinite bias next to a very high finite one)."""
     from panqec.codes import Toric2DCode, Planar2DCode
     from panqec.error_models import PauliErrorModel
     from panqec.decoders import MatchingDecoder
     from panqec.simulation import DirectSimulation
     out = {}
+    if variant == 1:
+        code = Toric2DCode(3, 3)
+        for key, em in (('A', PauliErrorModel(0.0, 0.0, 1.0)), ('B', PauliErrorModel(NEAR, 0.0, 1.0 - NEAR))):
+            out[key] = DirectSimulation(code, em, MatchingDecoder(code, em, 0.1), 0.1, verbose=False)
+        return out
     em = PauliErrorModel(0.2, 0.3, 0.5)
     for key, code, p in (('A', Toric2DCode(3, 3), 0.1), ('B', Planar2DCode(3, 3), 0.07)):
         dec = MatchingDecoder(code, em, p)
@@ -122,7 +133,7 @@ def fl(x):
     return float(x)
 
 
-def observe(paths):
+def observe(paths, variant=0):
     from panqec.analysis import Analysis, count_fails
     with contextlib.redirect_stdout(io.StringIO()):
         an = Analysis(paths, verbose=False)
@@ -141,6 +152,8 @@ def observe(paths):
     df = an.get_results()
     for _, row in df.iterrows():
         key = 'A' if row['code'] == 'Toric2DCode' else 'B'
+        if variant == 1:
+            key = 'A' if float(row['error_model_params']['r_z']) == 1.0 else 'B'
         k = int(row['k'])
         n = int(row['n_trials'])
         p, se = fl(row['p_est']), fl(row['p_se'])
@@ -185,7 +198,13 @@ def drive(item):
         os.makedirs(work, exist_ok=True)
     rec = {'pool': pool, 'layout': layout, 'observed': {}, 'n_rows': 0, 'raised': '', 'mult': mult}
     try:
-        sims = key_sims()
+        variant = 1 if idx % 6 == 4 else 0
+        sims = key_sims(variant)
+        if variant == 1:
+            # both simulations run on the two-qubit torus: B's trials (one logical qubit
+            # in the model) get an idle second logical qubit
+            pool = [dict(t, ee=[t['ee'][0], 0, t['ee'][1], 0]) if len(t['ee']) == 2 else t for t in pool]
+            rec['pool'] = pool
         paths = materialise(layout, pool, sims, work, mult)
         # the ways a user names the same files: a list of files, the directory
         # that holds them (with and without a trailing slash), relative paths
@@ -201,7 +220,7 @@ def drive(item):
                 paths = [os.path.relpath(p_, work) for p_ in paths]
             rec['path_form'] = ['file list', 'directory', 'directory with trailing slash',
                                 'relative paths'][form]
-            rec['observed'], rec['n_rows'] = observe(paths)
+            rec['observed'], rec['n_rows'] = observe(paths, variant)
         finally:
             os.chdir(cwd)
     except Exception as ex:
